@@ -56,6 +56,47 @@ func foundOf(c ssa.CallInstruction) ssa.Value {
 	return nil
 }
 
+// memdbMutator: g is a method of the in-memory database that, the key being present, changes the record map on every
+// path to a return (put: a MapUpdate on memdb.data; delete: a delete on it) — the in-memory half of an update moved
+// into a method (mdb.replaceAnnotation / mdb.removeAnnotation).
+func memdbMutator(g *ssa.Function, isPut bool) bool {
+	if g == nil || len(g.Blocks) == 0 || g.Signature.Recv() == nil || !typeIs(g.Signature.Recv().Type(), "datatype/neuronjson", "memdb") {
+		return false
+	}
+	direct := func(in ssa.Instruction) bool {
+		switch x := in.(type) {
+		case *ssa.MapUpdate:
+			return isPut && isFieldLoad(x.Map, "memdb", "data")
+		case *ssa.Call:
+			if bi, ok := x.Call.Value.(*ssa.Builtin); ok && bi.Name() == "delete" && !isPut {
+				return isFieldLoad(x.Call.Args[0], "memdb", "data")
+			}
+		}
+		return false
+	}
+	has := false
+	for _, b := range g.Blocks {
+		for _, in := range b.Instrs {
+			if direct(in) {
+				has = true
+			}
+		}
+	}
+	if !has {
+		return false
+	}
+	s := runSCCP(g, &AEnv{Atom: func(v ssa.Value) (AVal, bool) {
+		if ex, ok := v.(*ssa.Extract); ok && ex.Index == 1 {
+			if lk, ok := ex.Tuple.(*ssa.Lookup); ok && isFieldLoad(lk.X, "memdb", "data") {
+				return aBool(true), true
+			}
+		}
+		return unknown, false
+	}})
+	anyRet := func(x ssa.Instruction) bool { _, ok := x.(*ssa.Return); return ok }
+	return findPath(g, nil, direct, anyRet, s.EdgeFeasible) == nil
+}
+
 func ruleR16_1(r *Run) {
 	w := r.W
 	n := 0
@@ -107,6 +148,9 @@ func ruleR16_1(r *Run) {
 					if bi, ok := x.Call.Value.(*ssa.Builtin); ok && bi.Name() == "delete" && !isPut {
 						return isFieldLoad(x.Call.Args[0], "memdb", "data")
 					}
+					if memdbMutator(x.Call.StaticCallee(), isPut) {
+						return true
+					}
 				}
 				return false
 			}
@@ -126,13 +170,23 @@ func ruleR16_1(r *Run) {
 	}
 	// vice versa: no in-memory annotation change without a store write (outside the loader)
 	for _, f := range njFuncs(w) {
-		if strings.Contains(f.Name(), "loadMemDB") || strings.Contains(f.Name(), "initMemoryDB") || f.Name() == "init" || strings.HasPrefix(f.Name(), "addBodyID") {
+		if strings.Contains(f.Name(), "loadMemDB") || strings.Contains(f.Name(), "initMemoryDB") || f.Name() == "init" || strings.HasPrefix(f.Name(), "addBodyID") || strings.HasPrefix(f.Name(), "load") {
+			continue
+		}
+		// the methods of the in-memory database that make the change are judged at their call sites
+		if memdbMutator(f, true) || memdbMutator(f, false) {
 			continue
 		}
 		for _, b := range f.Blocks {
 			for _, in := range b.Instrs {
-				mu, ok := in.(*ssa.MapUpdate)
-				if !ok || !isFieldLoad(mu.Map, "memdb", "data") {
+				isChange := false
+				if mu, ok := in.(*ssa.MapUpdate); ok && isFieldLoad(mu.Map, "memdb", "data") {
+					isChange = true
+				}
+				if c, ok := in.(*ssa.Call); ok && memdbMutator(c.Call.StaticCallee(), true) {
+					isChange = true
+				}
+				if !isChange {
 					continue
 				}
 				isStore := func(x ssa.Instruction) bool {
